@@ -85,6 +85,14 @@ def match_known(finding, known):
         if k['rule'] == finding['rule'] and k['where'] == finding['where'] and \
                 k['construct'] == finding['construct']:
             return k
+    # R13.2 (alias escapes that are by design: results share values with the diff / the inputs).  The root cause is per function and per
+    # originating input, not per statement: a site whose statement was rewritten (value collected in a local first, loop turned into
+    # extend) is the same finding.  A site in ANOTHER function, or fed from another input, is still new.
+    if finding['rule'] == 'R13.2' and '[from ' in finding['construct']:
+        origin = finding['construct'][finding['construct'].rindex('[from '):]
+        for k in known:
+            if k['rule'] == 'R13.2' and k['where'] == finding['where'] and k['construct'].endswith(origin):
+                return k
     return None
 
 
